@@ -33,6 +33,14 @@ import (
 
 var localDefs = map[types.Object]ast.Expr{}
 
+// TupleDef is result #Index of Call.
+type TupleDef struct {
+	Call  *ast.CallExpr
+	Index int
+}
+
+var tupleDefs = map[types.Object]TupleDef{}
+
 // RegisterPackage records the transparent locals of one package.
 func RegisterPackage(info *types.Info, files []*ast.File) {
 	if info == nil {
@@ -40,6 +48,7 @@ func RegisterPackage(info *types.Info, files []*ast.File) {
 	}
 	count := map[types.Object]int{}
 	def := map[types.Object]ast.Expr{}
+	tdef := map[types.Object]TupleDef{}
 	opaque := map[types.Object]bool{}
 	objOf := func(e ast.Expr) types.Object {
 		id, ok := e.(*ast.Ident)
@@ -64,6 +73,8 @@ func RegisterPackage(info *types.Info, files []*ast.File) {
 						count[o]++
 						if len(x.Lhs) == len(x.Rhs) {
 							def[o] = x.Rhs[i]
+						} else if call, isCall := ast.Unparen(x.Rhs[0]).(*ast.CallExpr); isCall && len(x.Rhs) == 1 {
+							tdef[o] = TupleDef{call, i}
 						} else {
 							opaque[o] = true
 						}
@@ -115,6 +126,26 @@ func RegisterPackage(info *types.Info, files []*ast.File) {
 			localDefs[o] = e
 		}
 	}
+	for o, td := range tdef {
+		v, ok := o.(*types.Var)
+		if !ok || v.IsField() || v.Parent() == nil || v.Pkg() == nil || v.Parent() == v.Pkg().Scope() {
+			continue
+		}
+		if count[o] == 1 && !opaque[o] {
+			tupleDefs[o] = td
+		}
+	}
+}
+
+// TupleDefOf returns the call and result index that define a local which is
+// assigned exactly once, by `a, b, c := f(...)`.
+func TupleDefOf(info *types.Info, e ast.Expr) (TupleDef, bool) {
+	id, ok := e.(*ast.Ident)
+	if !ok || info == nil {
+		return TupleDef{}, false
+	}
+	td, ok := tupleDefs[info.Uses[id]]
+	return td, ok
 }
 
 // DefOf returns the defining expression of a transparent local, or nil.
